@@ -84,6 +84,12 @@ func Key() *Node         { return &Node{K: "key", T: TyText} }
 func Value() *Node       { return &Node{K: "value", T: TyText} }
 func Str(s string) *Node { return &Node{K: "str", S: s, T: TyText} }
 func Int(i int64) *Node  { return &Node{K: "int", I: i, T: TyInt} }
+
+// SpelledInt is a non-negative integer literal written with leading zeros
+// (007): the same number, another spelling.
+func SpelledInt(i int64, zeros int) *Node {
+	return &Node{K: "int", I: i, S: strings.Repeat("0", zeros) + strconv.FormatInt(i, 10), T: TyInt}
+}
 func Bool(b bool) *Node {
 	n := &Node{K: "bool", T: TyBool}
 	if b {
@@ -365,7 +371,11 @@ func (n *Node) render(sb *strings.Builder, paren bool) {
 	case "str":
 		sb.WriteString(mustQuote(n.S))
 	case "int":
-		sb.WriteString(strconv.FormatInt(n.I, 10))
+		if n.S != "" {
+			sb.WriteString(n.S) // as spelled (007)
+		} else {
+			sb.WriteString(strconv.FormatInt(n.I, 10))
+		}
 	case "float":
 		sb.WriteString(n.S)
 	case "bool":
